@@ -128,7 +128,9 @@ define(
 
 define(
     'C03', 'exploration',
-    [('heapdict', None, True), mm(['exhaustive_search.skip_if_subset'])],
+    [('heapdict', None, True), ('tbrmmscore', None, False),
+     ('tbrmmdesign', None, False),
+     mm(['exhaustive_search.skip_if_subset'])],
     ENGINE_TRUST,
     ['completeness of the enumeration is not yet discharged deductively: '
      'bounded brute-force comparison stands in'],
@@ -144,13 +146,13 @@ define(
     [('tbrmmdata', ['TBRMMData.aggregate_time_series',
                     'TBRMMData.aggregate_geo_share',
                     'TBRMMData.geo_index.setter'], False),
+     ('tbrmmscore', None, False), ('tbrmmdesign', None, False),
      mm(['exhaustive_search', 'greedy_search', 'search_results'])],
     ENGINE_TRUST + PANDAS_TRUST + [
         'copy.deepcopy returns a fresh, disjoint, field-wise equal object '
         'graph',
-        'call-site contracts of TBRMMDiagnostics / TBRMMScore '
-        '(clients_spec.py) are assumed here; their bodies are the subject of '
-        'C08'],
+        'the contracts of TBRMMDiagnostics used here are the ones discharged '
+        'under C08 (same sidecar)'],
     ['the link between the stored series and the raw input frame (pivot, '
      'truncation to n_pretest_max) is checked by the bounded monitor'],
     'At the exhaustive push site: stored groups, both stored diagnostics '
@@ -166,7 +168,8 @@ define(
 define(
     'C09', 'proof',
     [('geoeligibility', None, False), ('tbrmmdata', None, False),
-     mm(MM_FUNCS)],
+     ('tbrmmdiagnostics', None, False), ('tbrmmscore', None, False),
+     ('tbrmmdesign', None, False), mm(MM_FUNCS)],
     ENGINE_TRUST + PANDAS_TRUST + [
         'library calls do not raise when their ledger preconditions hold'],
     ['C09 precondition: analysis window >= n_test + 3 dates, correlations '
@@ -202,15 +205,25 @@ define(
 define(
     'C11', 'exploration',
     [mm(['treatment_group_size_range', '_control_group_size_generator',
-         'treatment_group_generator', 'control_group_generator'])],
-    ENGINE_TRUST,
-    ['count_max_designs loop contract and generator completeness not yet '
-     'discharged: bounded enumeration stands in'],
-    'Soundness of the size ranges and generators is proved; equality of '
-    'count_max_designs with the enumerated design space is a bounded '
-    'run-time contract over all eligibility multisets (<= 4-6 geos).',
+         'treatment_group_generator', 'control_group_generator',
+         'count_max_designs'])],
+    ENGINE_TRUST + ['scipy.special.comb(n, k, exact=True) is the binomial '
+                    'coefficient (uninterpreted BINOM)'],
+    ['the combinatorial identity |D| = SUM (class-composition count + '
+     'Vandermonde) is pure mathematics outside the SMT solver: checked by the '
+     'bounded enumeration of the monitor; completeness of the two group '
+     'generators likewise'],
+    'Proved for all inputs: count_max_designs returns the five-fold sum of '
+    'binomial products restricted to admissible treatment sizes and control '
+    'sizes (nested loop invariants over recursively defined partial sums); '
+    'the size range is exactly [max(lo, n_min), min(hi, n_max)] and the '
+    'control size generator yields exactly the admissible sizes (inclusive '
+    'geo ratio); the group generators are sound.  Equality of that sum with '
+    'the number of enumerated designs is a bounded run-time contract over all '
+    'eligibility multisets (<= 4-6 geos).',
     'DESIGN.md section 7, C11',
-    'Bounded; not counted as proved.')
+    'Level is the weaker (bounded) one: the counting identity and generator '
+    'completeness are not discharged deductively.')
 
 define(
     'C13', 'exploration',
